@@ -64,10 +64,26 @@ fn source_tiles() -> TileMap {
 }
 
 fn check_chain(ctx: &Ctx, rt: &tokio::runtime::Runtime, fac: &versatiles_pipeline::PipelineFactory, source_vpl: &str, tiles: Option<&TileMap>, chain: &[Filter], probes: &[Key], class: &str) {
+	check_chain_in(ctx, rt, fac, source_vpl, tiles, chain, probes, class, None)
+}
+
+/// `as_file`: the pipeline text is written to this file and opened like a container (what `convert` / `serve` do)
+fn check_chain_in(ctx: &Ctx, rt: &tokio::runtime::Runtime, fac: &versatiles_pipeline::PipelineFactory, source_vpl: &str, tiles: Option<&TileMap>, chain: &[Filter], probes: &[Key], class: &str, as_file: Option<&std::path::Path>) {
 	let vpl = format!("{source_vpl}{}", chain.iter().map(|f| format!(" | {}", f.vpl())).collect::<String>());
 	let case = json!({"vpl": vpl});
 	ctx.eval();
-	let op = match pipeline::build_op(rt, fac, &vpl) {
+	let built: Result<AnySrc, String> = match as_file {
+		None => pipeline::build_op(rt, fac, &vpl).map(AnySrc::Op),
+		Some(path) => {
+			std::fs::write(path, &vpl).unwrap();
+			match catch(|| rt.block_on(versatiles_container::get_reader(path.to_str().unwrap()))) {
+				Ok(Ok(r)) => Ok(AnySrc::Reader(r)),
+				Ok(Err(e)) => Err(format!("{e:#}")),
+				Err(p) => Err(format!("PANIC {p}")),
+			}
+		}
+	};
+	let op = match built {
 		Ok(o) => o,
 		Err(e) => {
 			if let Some(p) = e.strip_prefix("PANIC ") {
@@ -83,7 +99,7 @@ fn check_chain(ctx: &Ctx, rt: &tokio::runtime::Runtime, fac: &versatiles_pipelin
 		}
 	};
 	ctx.trace(1);
-	let src = AnySrc::Op(op);
+	let src = op;
 	let decide = |k: Key| -> Option<bool> {
 		let mut r = Some(true);
 		for f in chain {
@@ -189,7 +205,7 @@ fn check_chain(ctx: &Ctx, rt: &tokio::runtime::Runtime, fac: &versatiles_pipelin
 pub fn run(ctx: Arc<Ctx>) {
 	ctx.rule(
 		"filter_zoom: all 81 (min,max) over {absent,0,1,2,3,5,31,32,255}; filter_bbox: every valid box from the lon/lat alphabet of C15 (incl. points, slivers, antimeridian/pole touching) ; chains of 2 (all zoom x representative bbox, bbox x bbox; thorough: every 17th x every 17th box of the alphabet) and 3 filters; \
-		 sources: MemSource (full z0..4 + sparse z5 + both corners of z31), a source whose deepest level is a small region below world-wide upper levels (plain and as an overlay of its parts; half of the chains), from_debug (generator, all coordinates), overlays whose members cover different zoom levels / halves of the world (half of the chains), real versatiles / pmtiles / tar / mbtiles files written by the repository (a quarter of the chains each for versatiles and pmtiles, an eighth for tar and mbtiles); every coordinate z<=4 + sparse + corners probed by lookup, streams over whole levels. invalid arguments (reversed, out of range, 3/5 elements, nan, text, negative zoom, a scalar given twice with conflicting values) must be Err at build time. \
+		 sources: MemSource (full z0..4 + sparse z5 + both corners of z31), a source whose deepest level is a small region below world-wide upper levels (plain and as an overlay of its parts; half of the chains), from_debug (generator, all coordinates), overlays whose members cover different zoom levels / halves of the world (half of the chains), pipeline files over a container reaching level 31 opened like containers (a quarter of the chains), real versatiles / pmtiles / tar / mbtiles files written by the repository (a quarter of the chains each for versatiles and pmtiles, an eighth for tar and mbtiles); every coordinate z<=4 + sparse + corners probed by lookup, streams over whole levels. invalid arguments (reversed, out of range, 3/5 elements, nan, text, negative zoom, a scalar given twice with conflicting values) must be Err at build time. \
 		 oracle with a don't-care band of 1e-6 tile on geographic edges. non-trivial = chains that pass some but not all probe tiles",
 	);
 	let work = ct::WorkDir::new("c09");
@@ -205,6 +221,15 @@ pub fn run(ctx: Arc<Ctx>) {
 		// the same tiles as files of the formats whose readers advertise the exact bounding boxes of the stored tiles
 		if let Ok(ct::Written::Bytes(b)) = ct::write(&rt, Cont::Pmtiles, &mut src, &work.0, "low") {
 			std::fs::write(work.0.join("low.pmtiles"), b).unwrap();
+		}
+		// a container reaching down to level 31 (two neighbouring tiles there), behind pipeline files
+		{
+			let m = (1u32 << 31) - 1;
+			let deep: TileMap = [(31u8, m, m), (31, m - 1, m), (30, 5, 7), (3, 1, 1), (0, 0, 0)].into_iter().map(|k| (k, format!("{}/{}/{}", k.0, k.1, k.2).into_bytes())).collect();
+			let mut dsrc = MemSource::new("m", deep, TileFormat::BIN, TileCompression::Uncompressed);
+			if let Ok(ct::Written::Bytes(b)) = ct::write(&rt, Cont::Versatiles, &mut dsrc, &work.0, "deep") {
+				std::fs::write(work.0.join("deep.versatiles"), b).unwrap();
+			}
 		}
 		if ct::write(&rt, Cont::Tar, &mut src, &work.0, "low").is_err() {
 			let _ = std::fs::remove_file(work.0.join("low.tar"));
@@ -326,6 +351,14 @@ pub fn run(ctx: Arc<Ctx>) {
 				}
 				check_chain(ctxr, &rt, &fac, &format!("from_container filename=\"{file}\""), Some(lowr), chain, &lp, class);
 			}
+		}
+		if ci % 4 == 1 && wpath.join("deep.versatiles").exists() {
+			let m = (1u32 << 31) - 1;
+			let deep: TileMap = [(31u8, m, m), (31, m - 1, m), (30, 5, 7), (3, 1, 1), (0, 0, 0)].into_iter().map(|k| (k, format!("{}/{}/{}", k.0, k.1, k.2).into_bytes())).collect();
+			let dp: Vec<Key> = deep.keys().copied().chain([(31, 0, 0), (30, 5, 8), (3, 1, 2)]).collect();
+			let file = wpath.join(format!("chain{ci}.vpl"));
+			check_chain_in(ctxr, &rt, &fac, "from_container filename=\"deep.versatiles\"", Some(&deep), chain, &dp, "filter in a pipeline file over a container reaching level 31", Some(&file));
+			let _ = std::fs::remove_file(&file);
 		}
 		let passing = pr.iter().filter(|k| chain.iter().all(|f| f.passes(**k) == Some(true))).count();
 		if passing > 0 && passing < pr.len() {
